@@ -264,6 +264,8 @@ class Translator:
             if isinstance(sl, ast.Slice):
                 if sl.step is not None:
                     raise Unsupported("slice step")
+                if sl.lower is None and sl.upper is not None and not is_int_const(sl.upper):
+                    return "(ESliceToE %s %s)" % (expr(e.value), expr(sl.upper))
                 if sl.lower is None and sl.upper is not None:
                     return "(ESliceTo %s %s)" % (expr(e.value), cZ(int_const(sl.upper)))
                 if sl.lower is not None and sl.upper is None and int_const(sl.lower) >= 0:
